@@ -43,7 +43,7 @@ CORPUS = ["", "0", "1", "2", "-1", "100", "101", "254", "255", "256", " 50 ", "5
           "0xa1a1", "0Xa1a1", "+1a1a1", "-1a1a1", " 1a1a1", "\t1a1a1", "a1_1a1", "0xa1a1a1", "+1a1a1a1", "a1a1_1a1",
           " ffffff", "ffffff ", "ffffff\n", "fffff\x00", "１２３４５６", "0b1010", "1_000", "1e1", "0.5e1", "٠", "1,2,3\n",
           "+1,-2,3e1", "1,2,", ",,", "1;2", "Auto ", " Auto", "auto", "AUTO", "HeatOn\n", "0 ", " 1", "01", "+1", "1.", "True",
-          "100 ", "１００", "1_0_0", "0100", "-0", "254.0", "0xfe", "2.2 ", "1.4\n", "1,4", "1.4.0.0", "١.٤"]
+          "100 ", "１００", "1_0_0", "0100", "-0", "254.0", "0xfe", "2.2 ", "1.4\n", "1,4", "1.4.0.0", "١.٤", "1.04", "01.4", "1.3.9", "1.4.1", "2", "1", "0.9", "1.10", "1.40"]
 
 
 def grid(ctx):
@@ -208,6 +208,25 @@ def tables_do_not_depend_on_loaded_versions(res):
                             {"kind": "isolation", "module": m, "order": order or code_order, "differs": diff})
 
 
+def version_rule(c, o):
+    """Independent of the is_version oracle: in a node presentation (sub-type ARDUINO_NODE / ARDUINO_REPEATER_NODE, 17/18)
+    with an otherwise valid header, a payload of ASCII-decimal sections d(.d)* is accepted exactly when it is
+    NUMERICALLY >= 1.4 (sections left to right, missing = 0) - '1.4.0', '1.04', '2' are, '1.3.9', '0.9' are not."""
+    import re
+    n, ch, t, a, s = c["hdr"]
+    p = c["payload"]
+    if t != 0 or s not in (17, 18) or not (0 <= n <= 255 and 0 <= ch <= 255 and a in (0, 1)) or o not in ("0", "1"):
+        return None
+    if not (p.isascii() and re.fullmatch(r"[0-9]+(\.[0-9]+)*", p)) or len(p) > 200:
+        return None
+    secs = [int(x) for x in p.split(".")]
+    want = "1" if secs + [0] * (2 - len(secs)) >= [1, 4] else "0"
+    if o != want:
+        return (f"version {VERS[c['v']]}: node presentation {';'.join(map(str, c['hdr']))};{p!r} is "
+                f"{'accepted' if o == '1' else 'rejected'}, but {p} is {'' if want == '1' else 'not '}a version >= 1.4")
+    return None
+
+
 def run(ctx, res):
     tables_do_not_depend_on_loaded_versions(res)
     cases = corpus_cells(ctx) + grid(ctx) + child_cases(ctx)
@@ -233,6 +252,10 @@ def run(ctx, res):
         if o.startswith("exc"):
             res.violate("validate-raises", f"validation raised {o} (not voluptuous.Invalid) for {c}", c)
             continue
+        if c["kind"] == "validate":
+            why = version_rule(c, o)
+            if why:
+                res.violate("node-presentation-version/numeric-rule", why, c)
         if outs is None:
             continue
         mo = outs[i]
